@@ -645,6 +645,9 @@ def sandwich(tier="quick", start_id=0):
         acc = [{"op": "acc_load", "c": 0, "p": 70, "kind": kind}, {"op": "deref_p", "p": 70}, {"op": "drop_p", "p": 70}]
         pairs_q += [("acc%d/st/nofast" % kind, warm + acc, warm2 + st, "nofast", 34, 2), ("acc%d/st" % kind, warm + acc, warm2 + st, "default", 30, 2)]
         pairs_t += [("acc%d/st/nofast" % kind, warm + acc, warm2 + st, "nofast", 34, 44), ("acc%d/st" % kind, warm + acc, warm2 + st, "default", 30, 44)]
+    # cold start: two threads without a node (the list may be empty): A is stopped at every point of finding / creating its node
+    ldb = [{"op": "load", "c": 0, "g": 21}, {"op": "deref_g", "g": 21}, {"op": "drop_g", "g": 21}]
+    pairs_q += [("cold ld/ld", ld, ldb, "default", 30, 2), ("cold ld/st", ld, st, "default", 30, 2), ("cold st/ld", st, ldb, "default", 40, 2)]
     ser = [{"op": "ser", "c": 0}]
     pairs_q += [("cas/aba", warm + cas, aba, "default", 40, 2), ("rcu/aba", warm + rcu, aba, "default", 40, 2),
                 ("ser/st", warm + ser, warm2 + st, "default", 24, 2)]
